@@ -146,6 +146,19 @@ class LifeSystem:
             self.late_hash = 'h%d' % self.lives
         self.deep.start()
 
+    def start_fails(self):
+        """start() with a poll interval that cannot be used: it raises to the caller. Returns True when it did."""
+        custom = self.cfg._ConfigService__custom
+        good = custom['POLL_TIMER']
+        custom['POLL_TIMER'] = 'every now and then'
+        try:
+            self.deep.start()
+            return False
+        except BaseException:
+            return True
+        finally:
+            custom['POLL_TIMER'] = good
+
     def app_sets_hooks(self):
         """The application (e.g. a debugger) installs its own trace functions while the agent is running."""
         sys.settrace(app_sys)
